@@ -205,6 +205,40 @@ extern "C" void c59_ops(void) { sequence(4, 3, 2); }
 extern "C" void c59_batches(void) { scheduleThenRun(3, 2, false); }
 #endif
 
+// ---- sub-millisecond distances: timeRemaining() converts seconds to whole milliseconds, rounding UP, and must say 0
+// only when the event is really due. Events due in k x 0.1 ms (k symbolic in 1..12), the clock advancing by
+// j x 0.1 ms (j symbolic in 0..14) twice, a run after each step: nothing may fire before its due time (asserted in the
+// handler), and the reported wait must be the rounded-up distance (asserted by checkQueueView/opBatch).
+static void fineGrained(const unsigned nEvents)
+{
+    start();
+    for (unsigned i = 0; i < nEvents; ++i) {
+        Ev &e = ev[nev];
+        const unsigned k = (unsigned)vf_concretize(vf_range(1, 12, "when_tenth_ms"));
+        const double when = k * 0.0001;
+        e.weight = (int)vf_range(0, 1, "weight");
+        e.func = handlerA;
+        e.due = current_dtime + when;
+        e.scheduled = true;
+        ++nev;
+        eventAdd("c59", e.func, &e, when, e.weight, false);
+    }
+    checkQueueView();
+    for (unsigned step = 0; step < 2; ++step) {
+        const unsigned j = (unsigned)vf_concretize(vf_range(0, 14, "clock_tenth_ms"));
+        current_dtime += j * 0.0001;
+        checkQueueView();
+        opBatch();
+        checkQueueView();
+    }
+    drainAndCheck();
+}
+#ifdef VF_THOROUGH
+extern "C" void c59_fine(void) { fineGrained(2); }
+#else
+extern "C" void c59_fine(void) { fineGrained(1); }
+#endif
+
 // ---- eventDelete(func, nullptr): "cancel every event of this handler"
 static void cancelAllOf(const unsigned n)
 {
